@@ -81,7 +81,7 @@ def handleElim (op : String) (j : Json) : Option (Except String Json) :=
       | .ok (ts, used) => Json.mkObj [("ok", jTL ts), ("tactics", jInts used)]
       | .error e => Json.mkObj [("err", jErr e)]
     pure (((js (f true)).setObjVal! "alt" (js (f false))).setObjVal! "near"
-      (Json.arr #[js (g (oracleShift (-nearD)) true), js (g (oracleShift nearD) false)]))
+      (Json.arr #[js (g (oracleShift (-nearD)) true), js (g (oracleShift nearD) false), js (g oracleBox true), js (g oracleBox false)]))
   | _ => none
 
 end OpsElim
